@@ -42,6 +42,17 @@ ReqOK(in, out) ==
         Values(out.hdrs, n) = Values(in.hdrs, n)  \* every end-to-end field: same values, same order
   /\ \A n \in Names(in.hdrs) \cap (HopByHop \ Framing) : n \notin Names(out.hdrs)   \* hop-by-hop not forwarded
 
+\* Configurations of the agent that put a net/http ServeMux in front of the relay (--inject-banner, --shim-path:
+\* agent/banner/banner.go Proxy, agent/websockets/shim.go Proxy).  A ServeMux answers a request whose path is not
+\* in canonical form (empty, "." or ".." segments) with a 301 to the cleaned path, and that request never reaches
+\* the backend.  This is what the code does in front of the relay path that C02 is anchored in; it is modelled as
+\* a named step so that the configuration sweep (AgentConfig.tla) can judge every other request under those
+\* configurations (DESIGN.md, "Observations beyond the listed properties").
+\*   muxInFront: the configuration has a banner or a shim path;  canonical: path.Clean leaves the decoded path alone
+ReqOKUnder(muxInFront, canonical, in, out, clientStatus) ==
+  IF muxInFront /\ ~canonical THEN out.method = "NONE" /\ clientStatus = 301
+  ELSE ReqOK(in, out)
+
 \* C03: the response the client receives (out) for the backend's response (in)
 NoBody(in) == in.reqMethod = "HEAD" \/ in.status = 204 \/ in.status = 304
 EntityHeaders == {"Content-Type", "Content-Length", "Content-Encoding", "Content-Language", "Content-Range"}
